@@ -149,7 +149,16 @@ func runC03(o *Out, rng *Rng, tier string, replay string) {
 			cfg.nTrav = r.Range(20, 40)
 			cfg.days = r.Range(5, 10)
 		}
-		s := genEngine(r, wd, "C03", cfg)
+		var s *engSession
+		if c%5 == 3 {
+			// travellers flying on kept promises while in debt (the promise correction accumulates), under
+			// every combination of the correction option bits
+			bits := []int{0x40, 0x20, 0x50, 0x60, 0x10, 0x70, 0x00, 0x30}[(c/5)%8]
+			s = genProtocol(r, wd, false, "C03", bits)
+			o.Count(fmt.Sprintf("protocol_history_option_bits_%#x", bits))
+		} else {
+			s = genEngine(r, wd, "C03", cfg)
+		}
 		keepFails(o, s, "C03")
 		engNote(o, s)
 		nt := s.stat["updates_with_credit"] > 1
